@@ -268,7 +268,7 @@ def gen_random(rng, deep=False):
                 mode = rng.weighted([(45, "r"), (25, "w"), (15, "a"), (15, "x")])
                 if mode == "r":
                     path = rng.weighted([(40, GOOD), (15, SMALL), (8, MISSING), (10, DIR), (8, NOTDIR), (5, NODIR), (7, GOODP), (7, EXISTS), (4, LONG), (4, LOOP), (7, PROCMEM)])
-                    kind = "reader" if path in (GOOD, SMALL, GOODP, EXISTS) else ("dirreader" if path in (DIR, PROCMEM) else "err")
+                    kind = "reader" if path in (GOOD, SMALL, GOODP, EXISTS) else ("dirreader" if path in (DIR, PROCMEM) else "err")  # generator-side kind only
                 else:
                     path = rng.weighted([(40, "fresh"), (12, EXISTS), (8, DIR), (8, NOTDIR), (8, NODIR), (16, FULL), (8, GOOD), (4, LONG), (4, LOOP)])
                     if path == "fresh":
@@ -610,6 +610,8 @@ def check(model, results):
         prev_fault_fired = bool(injected)
         cls = _cause(op, errs, injected) + ":" + target_kind
         exp = _expect_use(op, s, info)   # fault-free expectation (also advances the model)
+        if target_kind == "procreader" and any(e.call == "R" and e.res >= 0 for e in evs):
+            exp = ("?",)
         was_dist = s["dist"]
         if errs:
             if tag != "E":
@@ -701,7 +703,12 @@ def _expect_create(op, info, file_state, st):
         if path in (MISSING, NOTDIR, NODIR, LONG, LOOP) or (path not in file_state and path not in (DIR, PROCMEM)):
             return False, "err", {}
         if o == "open":
-            if path in (DIR, PROCMEM):
+            if path == PROCMEM:
+                # reads of /proc/self/mem at offset 0 fail with EIO on Linux: every read must give an
+                # error object (if a kernel ever let such a read succeed, the recorded history shows it
+                # and the operation is then not judged)
+                return True, "procreader", {}
+            if path == DIR:
                 return True, "dirreader", {}
             if file_state[path] is None:
                 return True, "reader", {"data": None, "cur": 0, "dist": True, "srcpath": path}
@@ -728,7 +735,7 @@ def _expect_use(op, s, info):
     """Fault-free expectation for an operation on handle state s; advances the model."""
     o = op["op"]
     kind = s["kind"]
-    if kind == "dirreader":
+    if kind in ("dirreader", "procreader"):
         if o == "read" and op["n"] == 0:
             return ("A", b"")   # read(h, 0) never touches the descriptor
         return ("E",)
